@@ -1,17 +1,254 @@
 // c01: reads return the latest write — DB programs against the map oracle; (K) point reads on dumped
-// states against the L1 model's read path.
+// states against the L1 model's read path (KGet), and against the byte-level read path (KBytes: memdb
+// arrays + table file bytes, Coq side Corr/C01BytesRun.v).
+//
+// The driver is dbh.Main with one addition: at the points where a KGet case is dumped a KBytes case is
+// tried too; the byte cases go to their own case files (type c01bcase, evaluator bmismatches).
 package main
 
-import "verifharness/lib/dbh"
+import (
+	"fmt"
+	"os"
+	"path/filepath"
+	"sort"
+	"strings"
+	"sync"
+	"time"
+
+	"verifharness/lib/dbh"
+	"verifharness/lib/vlib"
+)
+
+const (
+	property = "C01"
+	rule     = "random DB programs (Put/Delete/batch incl. oversized/Get/Has/scan/snapshots/CompactRange/reopen/transactions) x option lattice x 4 comparers; after every 8th write and at checkpoints Get/Has of every pool key + 4 absent keys and a full scan are compared with a Go map; non-trivial = the run installed >=1 table compaction and populated >=2 levels"
+	header   = "From GL Require Import Corr.C01Run."
+
+	quickProgs, quickOps = 560, 300
+	thorProgs, thorOps   = 2000, 1200
+	kCapQuick, kCapThor  = 320, 1600
+	kPerRun              = 3
+	checkEvery           = 8
+
+	// byte-level cases: state size cap (memdb arrays + table files), per-run and global caps, file size cap
+	kbMaxBytes            = 20000
+	kbPerRun              = 2
+	kbCapQuick, kbCapThor = 40, 400
+	kbFileChars           = 280000
+)
+
+type bcase struct {
+	text string
+	st   dbh.KBytesStats
+}
+
+func nonTrivial(s map[string]int) bool { return s["table_compactions"] >= 1 && s["max_levels"] >= 2 }
+
+// score prefers states that exercise more of the composition: several levels, a frozen memdb, a filter
+func (b bcase) score() int {
+	s := b.st.Levels*4 + b.st.Tables
+	if b.st.Frozen {
+		s += 6
+	}
+	if b.st.Filter {
+		s += 3
+	}
+	return s
+}
+
+func writeByteCases(res *vlib.Result, out string, cases []bcase) {
+	if len(cases) == 0 {
+		return
+	}
+	// greedy packing: at most kbFileChars of case text per file, at least 16 files when there are enough cases
+	sort.SliceStable(cases, func(i, j int) bool { return len(cases[i].text) > len(cases[j].text) })
+	nfiles := 16
+	if len(cases) < nfiles {
+		nfiles = len(cases)
+	}
+	type bin struct {
+		items []string
+		size  int
+	}
+	bins := make([]*bin, nfiles)
+	for i := range bins {
+		bins[i] = &bin{}
+	}
+	for _, c := range cases {
+		best := bins[0]
+		for _, b := range bins {
+			if b.size < best.size {
+				best = b
+			}
+		}
+		if best.size+len(c.text) > kbFileChars && best.size > 0 {
+			best = &bin{}
+			bins = append(bins, best)
+		}
+		best.items = append(best.items, c.text)
+		best.size += len(c.text)
+	}
+	n := 0
+	for i, b := range bins {
+		if len(b.items) == 0 {
+			continue
+		}
+		name := fmt.Sprintf("cases_%s_b%d.v", property, i)
+		var sb strings.Builder
+		sb.WriteString(header + "\n")
+		sb.WriteString("From Coq Require Import List NArith ZArith String.\nImport ListNotations.\nOpen Scope string_scope.\nOpen Scope N_scope.\n")
+		sb.WriteString(fmt.Sprintf("Definition cases : list c01bcase :=\n %s.\n", vlib.CoqList(b.items)))
+		sb.WriteString("Definition M := Eval vm_compute in bmismatches cases.\nPrint M.\n")
+		os.WriteFile(filepath.Join(out, name), []byte(sb.String()), 0o644)
+		res.KCaseFiles = append(res.KCaseFiles, fmt.Sprintf("%s:%d", name, n))
+		n += len(b.items)
+	}
+	res.KCases += n
+}
 
 func main() {
-	dbh.Main(dbh.MainCfg{
-		Property:   "C01",
-		Rule:       "random DB programs (Put/Delete/batch incl. oversized/Get/Has/scan/snapshots/CompactRange/reopen/transactions) x option lattice x 4 comparers; after every 8th write and at checkpoints Get/Has of every pool key + 4 absent keys and a full scan are compared with a Go map; non-trivial = the run installed >=1 table compaction and populated >=2 levels",
-		Header:     "From GL Require Import Corr.C01Run.",
-		QuickProgs: 560, QuickOps: 300, ThorProgs: 2000, ThorOps: 1200,
-		Weights: dbh.DefaultWeights(), CheckEvery: 8,
-		KPrefixes: []string{"KGet"}, KCapQuick: 320, KCapThor: 1600, KPerRun: 3,
-		NonTrivial: func(s map[string]int) bool { return s["table_compactions"] >= 1 && s["max_levels"] >= 2 },
-	})
+	a := vlib.ParseArgs()
+	res := vlib.NewResult(property, a.Out, rule)
+	defer res.Write()
+	weights := dbh.DefaultWeights()
+	plainHooks := dbh.Hooks{CheckEvery: 1}
+	if a.Replay != "" {
+		p, err := dbh.LoadProgram(a.Replay)
+		if err != nil {
+			fmt.Println("cannot load replay:", err)
+			return
+		}
+		for i := 0; i < 3; i++ {
+			rr, _ := dbh.RunWith(p, plainHooks, false, false, nil)
+			res.Eval(fmt.Sprintf("replay%d", i), true)
+			if d := dbh.Describe(rr); d != "" {
+				fmt.Println("replay fails:", d)
+				res.Violate(d, p)
+				return
+			}
+		}
+		fmt.Println("replay passes")
+		return
+	}
+	nprog, nops, kcap, kbcap := quickProgs, quickOps, kCapQuick, kbCapQuick
+	if a.Thorough() {
+		nprog, nops, kcap, kbcap = thorProgs, thorOps, kCapThor, kbCapThor
+	}
+	if strings.Contains(a.Extra, "search") && !a.Thorough() {
+		nprog *= 4
+	}
+	root := vlib.NewRNG(a.Seed)
+	type job struct {
+		i int
+		r *vlib.RNG
+	}
+	jobs := make(chan job)
+	var kmu sync.Mutex
+	var kcases []string
+	var bcases []bcase
+	var wg sync.WaitGroup
+	for w := 0; w < 16; w++ {
+		wg.Add(1)
+		go func() {
+			defer wg.Done()
+			for j := range jobs {
+				r := j.r
+				cfg := dbh.RandomCfg(r)
+				pool := dbh.GenPool(r, r.Range(8, 60), r.Chance(1, 8))
+				p := dbh.GenProgram(r, cfg, pool, r.Range(nops/3, nops), weights)
+				p.Seed = a.Seed
+				collect := j.i%2 == 0
+				var kr, kb *vlib.RNG
+				if collect {
+					kr = r.Fork()
+					kb = r.Fork()
+				}
+				var mine []bcase
+				hooks := dbh.Hooks{CheckEvery: checkEvery, AfterOp: func(rn *dbh.Runner, i int, op *dbh.Op) {
+					if kr == nil {
+						return
+					}
+					if i%29 == 5 || op.Kind == dbh.OpWaitIdle {
+						rn.DumpKGet(kr, 300)
+					}
+					if i%13 == 4 || op.Kind == dbh.OpWaitIdle {
+						if cs, st, ok := rn.DumpKBytes(kb, kbMaxBytes); ok {
+							mine = append(mine, bcase{cs, st})
+						}
+					}
+				}}
+				rr, rn := dbh.RunWith(p, hooks, false, false, func(rn *dbh.Runner) {
+					rn.CollectK = collect
+					rn.KCap = kPerRun
+				})
+				if collect {
+					sort.SliceStable(mine, func(x, y int) bool { return mine[x].score() > mine[y].score() })
+					kmu.Lock()
+					for _, kc := range rn.KCases {
+						if len(kcases) >= kcap || len(kc) > 60000 {
+							continue
+						}
+						if strings.HasPrefix(kc, "KGet ") {
+							kcases = append(kcases, kc)
+						}
+					}
+					for x, bc := range mine {
+						if x >= kbPerRun || len(bcases) >= kbcap || len(bc.text) > kbFileChars {
+							break
+						}
+						bcases = append(bcases, bc)
+					}
+					kmu.Unlock()
+				}
+				for k, v := range rr.Stats {
+					if k == "max_levels" || k == "max_live_snapshots" {
+						res.Count("runs_with_"+k+fmt.Sprintf("_%d", v), 1)
+					} else {
+						res.Count(k, v)
+					}
+				}
+				res.Eval(fmt.Sprintf("%d", j.i), nonTrivial(rr.Stats))
+				if j.i < 2 {
+					n := 4
+					if len(p.Ops) < n {
+						n = len(p.Ops)
+					}
+					res.Sample(map[string]interface{}{"cfg": cfg.String(), "ops": len(p.Ops), "first_ops": p.Ops[:n], "stats": rr.Stats})
+				}
+				d := dbh.Describe(rr)
+				if d != "" {
+					res.Count("runs_failed", 1)
+				}
+				if d != "" && res.NViolations() < 6 {
+					q, d2 := dbh.ShrinkAndDescribe(p, plainHooks, false, 20*time.Second)
+					if d2 != "" {
+						res.Violate(d2, q)
+					} else {
+						res.Violate(d+" ["+cfg.String()+"] (not shrunk)", p)
+					}
+				}
+			}
+		}()
+	}
+	for i := 0; i < nprog; i++ {
+		jobs <- job{i, root.Fork()}
+	}
+	close(jobs)
+	wg.Wait()
+	res.WriteCases(header, "lsmcase", "mismatches", kcases, 16)
+	for _, b := range bcases {
+		res.Count("kbytes_cases", 1)
+		res.Count(fmt.Sprintf("kbytes_levels_%d", b.st.Levels), 1)
+		res.Count("kbytes_tables", b.st.Tables)
+		res.Count("kbytes_state_bytes", b.st.Bytes)
+		res.Count("kbytes_queries", b.st.Queries)
+		res.Count("kbytes_queries_found", b.st.Found)
+		if b.st.Frozen {
+			res.Count("kbytes_cases_with_frozen", 1)
+		}
+		if b.st.Filter {
+			res.Count("kbytes_cases_with_filter", 1)
+		}
+	}
+	writeByteCases(res, a.Out, bcases)
 }
